@@ -43,7 +43,9 @@ type ColType struct {
 	Coll  string // KStr
 }
 
-func TInt(sql string, min, max int64) ColType { return ColType{Kind: KInt, SQL: sql, Min: min, Max: max} }
+func TInt(sql string, min, max int64) ColType {
+	return ColType{Kind: KInt, SQL: sql, Min: min, Max: max}
+}
 
 var (
 	TTiny   = TInt("TINYINT", -128, 127)
@@ -81,9 +83,9 @@ type Val struct {
 
 var Null = Val{Null: true}
 
-func IntV(i int64) Val           { return Val{Kind: KInt, I: i} }
+func IntV(i int64) Val                   { return Val{Kind: KInt, I: i} }
 func DecV(unscaled int64, scale int) Val { return Val{Kind: KDec, I: unscaled, Scale: scale} }
-func StrV(s string) Val          { return Val{Kind: KStr, S: s} }
+func StrV(s string) Val                  { return Val{Kind: KStr, S: s} }
 
 var pow10 = [...]int64{1, 10, 100, 1000, 10000, 100000, 1000000, 10000000, 100000000, 1000000000, 10000000000, 100000000000, 1000000000000}
 
